@@ -27,13 +27,18 @@ type TBlock struct {
 	Tmstmp  int64
 	Salt    uint32
 	Invalid bool
+	PCtx    uint64 // P-Chain height of the block's proposer context (snowman++); 0 = the block carries none
 
 	bytes []byte
 	id    ids.ID
 }
 
 func NewTBlock(parent ids.ID, height uint64, ts int64, salt uint32, invalid bool) *TBlock {
-	b := &TBlock{Prnt: parent, Hght: height, Tmstmp: ts, Salt: salt, Invalid: invalid}
+	return NewTBlockCtx(parent, height, ts, salt, invalid, 0)
+}
+
+func NewTBlockCtx(parent ids.ID, height uint64, ts int64, salt uint32, invalid bool, pctx uint64) *TBlock {
+	b := &TBlock{Prnt: parent, Hght: height, Tmstmp: ts, Salt: salt, Invalid: invalid, PCtx: pctx}
 	buf := make([]byte, 0, 32+8+8+4+1)
 	buf = append(buf, parent[:]...)
 	buf = binary.BigEndian.AppendUint64(buf, height)
@@ -44,27 +49,41 @@ func NewTBlock(parent ids.ID, height uint64, ts int64, salt uint32, invalid bool
 	} else {
 		buf = append(buf, 0)
 	}
+	if pctx != 0 {
+		buf = binary.BigEndian.AppendUint64(buf, pctx)
+	}
 	b.bytes = buf
 	b.id = utils.ToID(buf)
 	return b
 }
 
 func ParseTBlock(b []byte) (*TBlock, error) {
-	if len(b) != 32+8+8+4+1 {
+	if len(b) != 32+8+8+4+1 && len(b) != 32+8+8+4+1+8 {
 		return nil, fmt.Errorf("bad test block length %d", len(b))
 	}
 	var p ids.ID
 	copy(p[:], b[:32])
-	return NewTBlock(p, binary.BigEndian.Uint64(b[32:]), int64(binary.BigEndian.Uint64(b[40:])), binary.BigEndian.Uint32(b[48:]), b[52] == 1), nil
+	pctx := uint64(0)
+	if len(b) > 53 {
+		if pctx = binary.BigEndian.Uint64(b[53:]); pctx == 0 {
+			return nil, fmt.Errorf("bad test block context")
+		}
+	}
+	return NewTBlockCtx(p, binary.BigEndian.Uint64(b[32:]), int64(binary.BigEndian.Uint64(b[40:])), binary.BigEndian.Uint32(b[48:]), b[52] == 1, pctx), nil
 }
 
-func (b *TBlock) GetID() ids.ID              { return b.id }
-func (b *TBlock) GetParent() ids.ID          { return b.Prnt }
-func (b *TBlock) GetTimestamp() int64        { return b.Tmstmp }
-func (b *TBlock) GetBytes() []byte           { return b.bytes }
-func (b *TBlock) GetHeight() uint64          { return b.Hght }
-func (b *TBlock) GetContext() *block.Context { return nil }
-func (b *TBlock) String() string             { return fmt.Sprintf("tblk(h=%d,salt=%d)", b.Hght, b.Salt) }
+func (b *TBlock) GetID() ids.ID       { return b.id }
+func (b *TBlock) GetParent() ids.ID   { return b.Prnt }
+func (b *TBlock) GetTimestamp() int64 { return b.Tmstmp }
+func (b *TBlock) GetBytes() []byte    { return b.bytes }
+func (b *TBlock) GetHeight() uint64   { return b.Hght }
+func (b *TBlock) GetContext() *block.Context {
+	if b.PCtx == 0 {
+		return nil
+	}
+	return &block.Context{PChainHeight: b.PCtx}
+}
+func (b *TBlock) String() string { return fmt.Sprintf("tblk(h=%d,salt=%d)", b.Hght, b.Salt) }
 
 // TOut / TAcc wrap the block and remember from which parent value they were derived.
 type TOut struct {
